@@ -575,7 +575,8 @@ func init() {
 		ID:    "C19",
 		Level: "fault_enumeration",
 		Title: "A failure anywhere surfaces as an error - never as a partial result",
-		Rule: "rapid draws a document and a query from 47 construct templates (filter, CASE, IN list, BETWEEN, function arguments, GROUP BY/HAVING/aggregates, " +
+		Rule: "[Dimensions added in rounds p-r of the seeded-defect evaluation: kind orderkey also with the unreadable key behind one or two leading keys on which every row ties.] " +
+			"rapid draws a document and a query from 47 construct templates (filter, CASE, IN list, BETWEEN, function arguments, GROUP BY/HAVING/aggregates, " +
 			"joins incl. PARALLEL/HASH, CTEs (also referenced twice), derived tables, select-item/IN/EXISTS subqueries on the row and on `<-`, UNION chains, " +
 			"ORDER BY/LIMIT, DISTINCT, nested FROM, LIKE/IS; Wrapped or not) and one of its fault positions; kind fn: a fault-free run counts the N " +
 			"invocations of the planted function, then EVERY k in 1..N (cap 64, reported) is executed with the function returning an error at its k-th " +
